@@ -170,10 +170,22 @@ class C36(Spec):
             'iteration; distinct = sha256(configuration, program, crash plan, tape); non-trivial = the crash fired while '
             'the victim was alive and at least one survivor had not finished')
 
+    SWEEP_BLOCK = 256
+    SWEEP_CUTS = (None, 1, 5, 11, 12, 13, 14, 0.5, 0.97)
+    SWEEP_HOWS = ('fin', 'rst', 'silent')
+
     def make_case(self, seed, tier):
-        rng = random.Random(f'C36/{seed}')
-        cfg = sample_cfg(rng, tier, m_min=2)
-        prog = intfam.gen(rng, cfg, tier, effects=True, size=rng.randint(2, 7))
+        sweep = tier == 'thorough' and seed % 2 == 0
+        if sweep:
+            # stratified mode: block b fixes a small program and its fault-free execution; the runs of the block walk
+            # through (victim, write event) x cut offset x close kind in mixed-radix order, so that every write event
+            # of every party of that execution is a crash point of some run once the block is complete
+            blk, j = divmod(seed // 2, self.SWEEP_BLOCK)
+            rng = random.Random(f'C36sweep/{blk}')
+        else:
+            rng = random.Random(f'C36/{seed}')
+        cfg = sample_cfg(rng, tier, m_min=2, **({'m_max': 4} if sweep else {}))
+        prog = intfam.gen(rng, cfg, tier, effects=True, size=rng.randint(2, 4) if sweep else rng.randint(2, 7))
         # several intermediate outputs so that there are outputs to be right or wrong about
         S = [st[1][0] for st in prog['stmts'] if st[1] and st[0] not in ('start_output', 'ucoro', 'input_list',
                                                                          'input_all', 'if_swap_l', 'mklist')]
@@ -190,6 +202,21 @@ class C36(Spec):
             return case          # the fault-free run itself is wrong: report that
         w = twin.world
         ev = w.events
+        if sweep:
+            points = [(e[1], e[0]) for e in ev if e[5] > 0]
+            steps = twin.steps
+            w.close()
+            if not points:
+                return case
+            k, rest = j % len(points), j // len(points)
+            cutv = self.SWEEP_CUTS[rest % len(self.SWEEP_CUTS)]
+            how = self.SWEEP_HOWS[(rest // len(self.SWEEP_CUTS)) % len(self.SWEEP_HOWS)]
+            victim, step = points[k]
+            case = dict(case, tape=twin.tape, sweep={'block': blk, 'index': j, 'points': len(points), 'steps': steps},
+                        crash={'pid': victim, 'step': step + (1 if cutv is None else 0), 'how': how,
+                               'cut_frac': {} if cutv is None else {'*': cutv}})
+            case['opts'] = {}
+            return case
         victim = rng.randrange(cfg.m)
         wrote = [e[0] for e in ev if e[1] == victim and e[5] > 0]
         r = rng.random()
@@ -219,11 +246,30 @@ class C36(Spec):
         return bool(res.info.get('probes', {}).get('crash_fired'))
 
     def monitors(self, case):
-        return [CrashProbe()]
+        return [CrashProbe(case.get('sweep'))]
+
+    def evidence_extra(self, agg, tier):
+        blocks = {}
+        for ex in agg.extras:
+            b = blocks.setdefault(ex['block'], {'points': ex['points'], 'idx': set()})
+            b['idx'].add(ex['index'])
+        if not blocks:
+            return {}
+        full = [b for b in blocks.values() if all(i in b['idx'] for i in range(b['points']))]
+        return {'crash_sweep': {'programs_swept': len(blocks),
+                                'programs_with_every_write_event_of_every_party_crashed_at': len(full),
+                                'write_events_in_those_programs': sum(b['points'] for b in full),
+                                'crash_runs_in_sweep_mode': sum(len(b['idx']) for b in blocks.values()),
+                                'cut_offsets': [str(c) for c in self.SWEEP_CUTS], 'close_kinds': list(self.SWEEP_HOWS)}}
 
 
 class CrashProbe:
+    def __init__(self, sweep=None):
+        self.sweep = sweep
+
     def finish(self, w, res):
+        if self.sweep:
+            res.info['extra'] = {'block': self.sweep['block'], 'index': self.sweep['index'], 'points': self.sweep['points']}
         pr = res.info.setdefault('probes', {})
         cp = w.crash_plan
         if not cp or not cp.get('done') or cp.get('noop'):
